@@ -32,6 +32,11 @@ def allCanon (l : List Nat) : Bool := l.all (· < P)
 def fmtRawL (l : List Nat) : String :=
   "[" ++ ",".intercalate (l.map fun w => if w < P then toString (bfe_value w) else s!"nc{w}") ++ "]"
 
+/-- the `_ok` flags repeat the whole computation; they are evaluated on a deterministic eighth of the inputs (chosen by
+    the sum of the raw words), the regenerated values on every input -/
+def sampled (l : List Nat) (ok : List Nat → Bool) : Bool :=
+  if (l.foldl (· + ·) 0) % 8 == 0 then ok l else true
+
 /-- the hand model's reply next to the reply computed by the definitions **regenerated from source**
     (`TF.Gen.Loops.tip5_*`, written by tools/rs2lean_bfe.py): when they differ, or when the regenerated `_ok` flag says that
     a plain arithmetic operation overflowed / an index was out of range, that is printed instead of the value, so a
@@ -46,7 +51,7 @@ def tip5 : Handler
       if !allCanon l then none
       let v ← toVec 16 l
       let raw := rawV v
-      let m := both (Loops.tip5_permutation_ok raw.toList) (fmtRawL (Loops.tip5_permutation raw.toList))
+      let m := both (sampled raw.toList Loops.tip5_permutation_ok) (fmtRawL (Loops.tip5_permutation raw.toList))
         (fmtRaw (Tip5.permutation raw))
       pure (withSpec m (fmtVals (Spec.Tip5.permutation v)))
   | "trace", [xs] => do
@@ -55,7 +60,7 @@ def tip5 : Handler
       let v ← toVec 16 l
       let raw := rawV v
       let g := Loops.tip5_trace raw.toList
-      let m := both (Loops.tip5_trace_ok raw.toList)
+      let m := both (sampled raw.toList Loops.tip5_trace_ok)
         ("[" ++ ",".intercalate (g.1.map fmtRawL) ++ "]" ++ (if g.2 == (g.1.getLast?.getD []) then "" else "!self=" ++ fmtRawL g.2))
         ("[" ++ ",".intercalate ((Tip5.trace raw).map fmtRaw) ++ "]")
       let s := "[" ++ ",".intercalate ((Spec.Tip5.trace v).map fmtVals) ++ "]"
@@ -68,14 +73,14 @@ def tip5 : Handler
       let g := match Loops.tip5_hash_10 inp with
         | some d => fmtRawL d
         | none => "diverge"
-      let m := both (Loops.tip5_hash_10_ok inp) g (fmtRaw (Tip5.hash_10 (rawV v)))
+      let m := both (sampled inp Loops.tip5_hash_10_ok) g (fmtRaw (Tip5.hash_10 (rawV v)))
       pure (withSpec m (fmtVals (Spec.Tip5.hash10 v)))
   | "hashpair", [a, b] => do
       let la ← a.natList?; let lb ← b.natList?
       if !allCanon la || !allCanon lb then none
       let va ← toVec 5 la; let vb ← toVec 5 lb
       let st := (Tip5.fixedLengthState (rawV (va ++ vb))).toList
-      let m := both (Loops.tip5_permutation_ok st) (fmtRawL ((Loops.tip5_permutation st).take 5))
+      let m := both (sampled st Loops.tip5_permutation_ok) (fmtRawL ((Loops.tip5_permutation st).take 5))
         (fmtRaw (Tip5.hash_pair (rawV va) (rawV vb)))
       pure (withSpec m (fmtVals (Spec.Tip5.hashPair va vb)))
   | "digesthash", [a] => do
